@@ -49,6 +49,9 @@ type Op struct {
 	// clone of a clone, "arr" through an array element holding it. A copy of an instance is still an object of that
 	// instantiation: it accepts what the instance accepts.
 	Via string `json:"via,omitempty"`
+	// ByArg (members xp, xpv): the write is made by a method running on ANOTHER object, a fresh G1<ByArg>, which
+	// assigns to the member of this instance: what is accepted is still decided by this instance's arguments
+	ByArg string `json:"by_arg,omitempty"`
 }
 
 type W struct {
@@ -159,7 +162,7 @@ func gen(r *verifsim.Rng, tier string) (any, hx.Sched) {
 		in := insts[r.Intn(len(insts))]
 		op := Op{K: "W", Inst: in.Inst, Val: verifsim.Pick(r, values)}
 		if in.Class == "G1" {
-			op.Mem = verifsim.Pick(r, []string{"p", "p", "p", "set", "put", "put", "q", "u", "ctor", "pv", "pw", "tpv"}) // q: declared ?T, u: T|null, ctor: new G6<T>(value), a promoted constructor parameter
+			op.Mem = verifsim.Pick(r, []string{"p", "p", "p", "set", "put", "put", "q", "u", "ctor", "pv", "pw", "tpv", "xp", "xpv"}) // q: declared ?T, u: T|null, ctor: new G6<T>(value), a promoted constructor parameter
 		} else if in.Class == "G3" {
 			op.Mem = verifsim.Pick(r, []string{"p", "put"})
 		} else if in.Class == "G5" {
@@ -177,10 +180,13 @@ func gen(r *verifsim.Rng, tier string) (any, hx.Sched) {
 		if op.Mem == "ctor" || op.Mem == "cna" || op.Mem == "cnb" {
 			op.Args = in.Args
 		}
-		if op.Mem != "ctor" && op.Mem != "cna" && op.Mem != "cnb" && r.Intn(12) == 0 {
+		if op.Mem == "xp" || op.Mem == "xpv" {
+			op.ByArg = verifsim.Pick(r, []string{"int", "string", "array", "U"})
+		}
+		if op.Mem != "ctor" && op.Mem != "cna" && op.Mem != "cnb" && op.Mem != "xp" && op.Mem != "xpv" && r.Intn(12) == 0 {
 			op.Rep = verifsim.Pick(r, []int{40, 300, 300, 700})
 		}
-		if op.Mem != "ctor" && op.Mem != "cna" && op.Mem != "cnb" && r.Intn(6) == 0 {
+		if op.Mem != "ctor" && op.Mem != "cna" && op.Mem != "cnb" && op.Mem != "xp" && op.Mem != "xpv" && r.Intn(6) == 0 {
 			op.Via = verifsim.Pick(r, []string{"clone", "clone", "clone2", "arr"})
 		}
 		w.Ops = append(w.Ops, op)
@@ -276,6 +282,7 @@ class G1<T> {
   protected T $pw;
   public function pokePv($other, $v) { $other->pv = $v; return 1; }
   public function pokePw($other, $v) { $other->pw = $v; return 1; }
+  public function pokeP($other, $v) { $other->p = $v; return 1; }
   public function setPv($v) { $this->pv = $v; return 1; }
   public ?T $q = null;
   public T|null $u = null;
@@ -330,6 +337,8 @@ function wd($o, $v) { try { $o->d = $v; return "A"; } catch (\Throwable $e) { re
 function wpv($o, $v) { try { $o->pokePv($o, $v); return "A"; } catch (\Throwable $e) { return "R"; } }
 function wpw($o, $v) { try { $o->pokePw($o, $v); return "A"; } catch (\Throwable $e) { return "R"; } }
 function wtpv($o, $v) { try { $o->setPv($v); return "A"; } catch (\Throwable $e) { return "R"; } }
+function wxp($by, $o, $v) { try { $by->pokeP($o, $v); return "A"; } catch (\Throwable $e) { return "R"; } }
+function wxpv($by, $o, $v) { try { $by->pokePv($o, $v); return "A"; } catch (\Throwable $e) { return "R"; } }
 function wset($o, $v) { try { $o->set($v); return "A"; } catch (\Throwable $e) { return "R"; } }
 function wput($o, $v) { try { $o->put($v); return "A"; } catch (\Throwable $e) { return "R"; } }
 function wfill($o, $v) { try { $o->fill(); return "A:" . get_class($o->p); } catch (\Throwable $e) { return "R"; } }
@@ -354,6 +363,9 @@ func renderOp(op Op, idx int) string {
 	if op.Mem == "ctor" {
 		// constructs a G6 with the SAME type arguments as the instance, passing the value to a promoted parameter
 		return fmt.Sprintf("__rec(\"w%d\", (function() { try { $x = new G6<%s>(%s); return \"A\"; } catch (\\Throwable $e) { return \"R\"; } })());\n", idx, strings.Join(op.Args, ", "), valueExpr[op.Val])
+	}
+	if op.Mem == "xp" || op.Mem == "xpv" {
+		return fmt.Sprintf("__rec(\"w%d\", w%s(new G1<%s>(), $o%d, %s));\n", idx, op.Mem, op.ByArg, op.Inst, valueExpr[op.Val])
 	}
 	if op.Mem == "cna" || op.Mem == "cnb" {
 		kv, wv := valueExpr[op.Val], valueExpr[op.Args[1]]
@@ -559,7 +571,7 @@ func exec(t *testing.T, x any, s hx.Sched) *hx.Outcome {
 			if op.Mem == "q" || op.Mem == "u" || op.Mem == "ctor" || op.Mem == "pv" || op.Mem == "pw" || op.Mem == "tpv" {
 				ckey = fmt.Sprintf("c.%s.%s.%s", op.Mem, targ, op.Val)
 			}
-			if op.Mem == "fill" || op.Mem == "made" || op.Mem == "kw" || op.Mem == "kwn" || op.Mem == "cna" || op.Mem == "cnb" || cn(targ) != targ {
+			if op.Mem == "fill" || op.Mem == "made" || op.Mem == "kw" || op.Mem == "kwn" || op.Mem == "cna" || op.Mem == "cnb" || op.Mem == "xp" || op.Mem == "xpv" || cn(targ) != targ {
 				// (capitalised scalar names: origami reads `String` as string in a property declaration but as
 				// a class named String in `?String`, in parameters and in type arguments — C07's subject; only the
 				// history oracle is applied to them)
@@ -608,7 +620,7 @@ func absolute(in Op, op Op) string {
 	var ts []string
 	nullable := false
 	switch op.Mem {
-	case "p", "put", "pv", "pw", "tpv", "ctor", "a", "cna":
+	case "p", "put", "pv", "pw", "tpv", "ctor", "a", "cna", "xp", "xpv":
 		ts = []string{in.Args[0]}
 	case "q", "u":
 		ts, nullable = []string{in.Args[0]}, true
@@ -663,6 +675,10 @@ func memKind(m string) string {
 		return "named-constructor-parameter"
 	case "pv", "tpv":
 		return "private-property"
+	case "xp":
+		return "property-written-by-another-instantiation"
+	case "xpv":
+		return "private-property-written-by-another-instantiation"
 	case "pw":
 		return "protected-property"
 	}
